@@ -8,6 +8,9 @@
 // in-memory ResponseWriter). The glue loops are replaced by explicit events:
 //
 //	Add/Update/Delete(i)  active store change + PushChange (what the session manager does)
+//	Xxx(i)~overtakes      the same push, made concurrently with the immediately preceding push of another session:
+//	                      it took its sequence number second but reached the queue first (PushChange numbers and
+//	                      enqueues in two steps); enqueue order is the push order the property speaks of
 //	BroadcastOne          one iteration of broadcastLoop's pendingChanges branch
 //	FullSync / FullSyncErr  standbyLoop step 1 (performFullSync), optionally with a transport fault
 //	Attach                standbyLoop step 2: the real connectToStream runs on its own goroutine; its request
@@ -124,6 +127,8 @@ type stream struct {
 	pw         *io.PipeWriter     // standby-facing side of the connection
 	opened     bool
 	clientDone bool
+	q          []*msgDesc // changes handed to this stream by the broadcaster, in that order
+	qHead      int        // how many of them have been delivered
 }
 
 func (t *memTransport) RoundTrip(req *http.Request) (*http.Response, error) {
@@ -166,7 +171,7 @@ type sys struct {
 	nextVer  int
 	msgs     []*msgDesc // every change pushed so far, in push order
 	pending  []*msgDesc // mirror of the active's pendingChanges queue
-	lastSeq  uint64     // highest change sequence number applied on the current connection
+	prevPush *msgDesc   // the change pushed by the immediately preceding operation (nil if that was not a plain push)
 	attachAt int        // number of changes pushed before the current stream attached
 	faults   int
 
@@ -297,10 +302,18 @@ func (s *sys) openStream(req *http.Request) (*http.Response, error) {
 func (s *sys) Ops() []string {
 	var ops []string
 	for i := 1; i <= s.c.ids; i++ {
+		var push []string
 		if s.ver[sid(i)] == 0 {
-			ops = append(ops, fmt.Sprintf("Add(%d)", i))
+			push = []string{fmt.Sprintf("Add(%d)", i)}
 		} else {
-			ops = append(ops, fmt.Sprintf("Update(%d)", i), fmt.Sprintf("Delete(%d)", i))
+			push = []string{fmt.Sprintf("Update(%d)", i), fmt.Sprintf("Delete(%d)", i)}
+		}
+		ops = append(ops, push...)
+		// concurrent with the previous push (of another session, still queued): may overtake it in the queue
+		if pp := s.prevPush; pp != nil && pp.id != sid(i) && pp.fate == "" && len(s.pending) > 0 && s.pending[len(s.pending)-1] == pp {
+			for _, o := range push {
+				ops = append(ops, o+"~overtakes")
+			}
 		}
 	}
 	if len(s.pending) > 0 {
@@ -348,6 +361,30 @@ func (s *sys) push(typ ha.SyncMessageType, i int, sess *ha.SessionState) {
 func (s *sys) Apply(op string) string {
 	var i int
 	obs := "ok"
+	overtakes := strings.HasSuffix(op, "~overtakes")
+	op = strings.TrimSuffix(op, "~overtakes")
+	npushed := len(s.msgs)
+	defer func() {
+		// prevPush: set only by a plain push
+		if len(s.msgs) == npushed+1 && !overtakes {
+			s.prevPush = s.msgs[npushed]
+		} else {
+			s.prevPush = nil
+		}
+	}()
+	if overtakes {
+		defer func() {
+			n := len(s.pending)
+			if len(s.msgs) != npushed+1 || n < 2 || s.pending[n-1] != s.msgs[npushed] {
+				harnessError("~overtakes: the push was not queued")
+				return
+			}
+			if !s.active.VerifC13SwapLastTwoPending() {
+				harnessError("~overtakes: real queue has fewer than two entries")
+			}
+			s.pending[n-1], s.pending[n-2] = s.pending[n-2], s.pending[n-1]
+		}()
+	}
 	switch {
 	case strings.HasPrefix(op, "Add("), strings.HasPrefix(op, "Update("):
 		typ := ha.SyncTypeAdd
@@ -376,6 +413,7 @@ func (s *sys) Apply(op string) string {
 		switch s.phase {
 		case phAttached:
 			m.fate = "stream"
+			s.cur.q = append(s.cur.q, m)
 		case phSynced:
 			m.fate = "no-client(gap)"
 		default:
@@ -429,7 +467,6 @@ func (s *sys) Apply(op string) string {
 			break
 		}
 		s.cur = st
-		s.lastSeq = 0
 		s.attachAt = len(s.msgs)
 		s.phase = phAttached
 		// The handler greets with a heartbeat before anything else; the standby
@@ -484,10 +521,18 @@ func (s *sys) afterDeliver(m *ha.SyncMessage) {
 	default:
 		return
 	}
-	if m.SequenceNum <= s.lastSeq {
-		s.v("S2-order", "stream", "change #%d delivered after change #%d on the same stream", m.SequenceNum, s.lastSeq)
+	// push order = the order in which the changes were queued and handed to this stream
+	if st := s.cur; st != nil && len(m.Sessions) == 1 {
+		if st.qHead >= len(st.q) {
+			s.v("S2-order", "stream", "%s #%d of %s delivered but the broadcaster handed no such change to this stream", m.Type, m.SequenceNum, m.Sessions[0].SessionID)
+		} else {
+			e := st.q[st.qHead]
+			st.qHead++
+			if e.typ != m.Type || e.id != m.Sessions[0].SessionID || (m.Type != ha.SyncTypeDelete && uint64(e.ver) != m.Sessions[0].BytesIn) {
+				s.v("S2-order", "stream", "%s #%d of %s (v%d) delivered where push %d (%s %s v%d) was next in push order", m.Type, m.SequenceNum, m.Sessions[0].SessionID, m.Sessions[0].BytesIn, e.n, e.typ, e.id, e.ver)
+			}
+		}
 	}
-	s.lastSeq = m.SequenceNum
 	for _, sess := range m.Sessions {
 		for _, d := range s.msgs {
 			if !d.applied && d.typ == m.Type && d.id == sess.SessionID && (m.Type == ha.SyncTypeDelete || uint64(d.ver) == sess.BytesIn) {
@@ -637,7 +682,7 @@ func (s *sys) Fingerprint() string {
 		rec = append(rec, *r)
 	}
 	dump("R", rec)
-	fmt.Fprintf(&sb, "ph=%d pushed=%d nextVer=%d faults=%d lastSeq=%d attachAt=%d pend=[", s.phase, len(s.msgs), s.nextVer, s.faults, s.lastSeq, s.attachAt)
+	fmt.Fprintf(&sb, "ph=%d pushed=%d nextVer=%d faults=%d prev=%v attachAt=%d pend=[", s.phase, len(s.msgs), s.nextVer, s.faults, s.prevPush != nil, s.attachAt)
 	for _, m := range s.pending {
 		fmt.Fprintf(&sb, "%d:%s:%s:%d,", m.n, m.typ, m.id, m.ver)
 	}
